@@ -1,7 +1,7 @@
 """C12 — the signing check (DESIGN §4 C12)."""
 import ast
 
-from .common import ctx, returns, calls_in_ctx, site, reach_from_succ, bulk_appends, explore, full_text
+from .common import ctx, returns, calls_in_ctx, site, reach_from_succ, bulk_appends, explore, full_text, root_params
 from .lvs import merge_key_rule, match_rules, CK, CP, last_component_guarded, eq_label
 from ..flow import callee_attr
 from ..loader import AnalysisError, norm
@@ -28,9 +28,12 @@ def run(R):
         ia = [ast.unparse(a) for a in inner.ast.iter.args]
         ot = [ast.unparse(e) for e in outer.ast.target.elts] if isinstance(outer.ast.target, ast.Tuple) else []
         it = [ast.unparse(e) for e in inner.ast.target.elts] if isinstance(inner.ast.target, ast.Tuple) else []
-        if oa != ['pkt_name', '{}']:
+        ckp = [a_.arg for a_ in ck.f.node.args.args][1:3]      # (packet name, key name) parameters
+        orp = root_params(ck, outer, outer.ast.iter.args[0]) if outer.ast.iter.args else set()
+        irp = root_params(ck, inner, inner.ast.iter.args[0]) if inner.ast.iter.args else set()
+        if len(oa) != 2 or orp != {ckp[0]} or oa[1] != '{}':
             probs.append((f'the packet name is matched as _match({", ".join(oa)})', outer.ast.iter))
-        if len(ot) != 2 or ia != ['key_name', ot[1] if len(ot) == 2 else '?']:
+        if len(ot) != 2 or len(ia) != 2 or irp != {ckp[1]} or ia[1] != (ot[1] if len(ot) == 2 else '?'):
             probs.append((f'the key name is matched as _match({", ".join(ia)}) instead of under the bindings of the packet match', inner.ast.iter))
         if not any(x is inner.ast for x in ast.walk(outer.ast)):
             probs.append(('the key match is not nested in the packet match', inner.ast))
@@ -78,8 +81,8 @@ def run(R):
         # with a non-empty name ending in an implicit digest, the match is reached only through the stripping assignment
 
         def digest_case(e):
-            if isinstance(e, ast.Compare) and len(e.ops) == 1 and isinstance(e.ops[0], (ast.Eq, ast.NotEq)) and 'TYPE_IMPLICIT_SHA256' in ast.unparse(e) \
-                    and 'get_type(' in ast.unparse(e):
+            if isinstance(e, ast.Compare) and len(e.ops) == 1 and isinstance(e.ops[0], (ast.Eq, ast.NotEq)) and 'TYPE_IMPLICIT_SHA256' in full_text(ck, e) \
+                    and 'get_type(' in full_text(ck, e):
                 return isinstance(e.ops[0], ast.Eq)
             if isinstance(e, ast.Name) and any(i_.kind == 'expr' and 'Name.normalize(' in ast.unparse(i_.expr) for n_ in ck.cfg.nodes if n_.kind == 'test' and n_.ast is e
                                                for i_ in ck.sources(n_, e)):
